@@ -335,7 +335,7 @@ def random_case(rnd, fams):
     for _ in range(rnd.randrange(3, 14)):
         c = rnd.random()
         if c < 0.5:
-            ops.append({"e": "Step", "iv": scn["iv"] if kind == "stepwise" else rnd.choice([1, 2, 4, 6, 8])})
+            ops.append({"e": "Step", "iv": scn["iv"] if kind == "stepwise" else rnd.choice([1, 2, 4, 6, 8, 0])})
         else:
             attr = rnd.choice(["supply", "demand", "util", "alloc"])
             v = rnd.choice(sup) if attr in ("supply", "demand") else rnd.randrange(0, 5)
